@@ -182,6 +182,8 @@ static void set_world(const char *k, const char *v)
     else if (!strcmp(k, "pick_order")) W.pick_order = (int)x;
     else if (!strcmp(k, "tw_descendants")) W.tw_descendants = (int)x;
     else if (!strcmp(k, "p_preempt")) W.p_preempt = (uint32_t)ux;
+    else if (!strcmp(k, "p_burst")) W.p_burst = (uint32_t)x;
+    else if (!strcmp(k, "burst_len")) W.burst_len = (uint32_t)x;
     else if (!strcmp(k, "max_steps")) W.max_steps = ux;
     else if (!strcmp(k, "junk_seed")) W.junk_seed = ux;
     else if (!strcmp(k, "junk_on")) W.junk_on = (int)x;
